@@ -212,6 +212,31 @@ section
 variable {x : Char} (hx : Safe x)
 include hx
 
+theorem optCmds_noCh (n : Nat) (os : List SOpt) (ho : BlockOpts os) :
+    CmdsNoCh x ((sortOpts os).map (fun o => optionCmds (n + 1) o ++ [Cmd.gap])).flatten := by
+  rw [optCmds_indent]
+  intro c hc
+  simp only [List.mem_map] at hc
+  obtain ⟨c0, hc0, rfl⟩ := hc
+  simp only [optCmds0, List.mem_flatten, List.mem_map] at hc0
+  obtain ⟨cs, ⟨o, ho', rfl⟩, hmem⟩ := hc0
+  rcases List.mem_append.mp hmem with h1 | h1
+  · simp only [optionCmds, List.mem_map] at h1
+    obtain ⟨l, hl, rfl⟩ := h1
+    simp only [Cmd.indent]
+    apply noCh_ind hx
+    intro ch hch hcx
+    have hl' : l ∈ optLines0 os := by
+      simp only [optLines0, List.mem_flatten, List.mem_map]
+      exact ⟨_, ⟨o, ho', rfl⟩, hl⟩
+    have := ho.noch l hl' ch hch
+    rcases hx.only with h2 | h2
+    · exact this.1 (hcx.trans h2)
+    · exact this.2 (hcx.trans h2)
+  · simp only [List.mem_singleton] at h1
+    subst h1
+    trivial
+
 mutual
 theorem simpleItem_noCh : ∀ (e : Item) (n : Nat), SimpleItem e → CmdsNoCh x (itemCmds n e)
   | .field f, n, h => by
@@ -237,12 +262,11 @@ theorem simpleItem_noCh : ∀ (e : Item) (n : Nat), SimpleItem e → CmdsNoCh x 
   | .block kw t l i name os kids, n, h => by
     simp only [SimpleItem] at h
     obtain ⟨hl, ho, hname, hcase⟩ := h
-    subst ho
-    rw [blockCmds_simple n kw t l i name kids hl]
+    rw [blockCmds_opts n kw t l i name os kids hl]
     have hkw : NoCh x kw.toList := by
       rcases hcase with ⟨h, _⟩ | ⟨h, _⟩ | ⟨h, _⟩ <;> rw [h] <;> exact noCh_lit hx _ (by simp)
     have hkids : CmdsNoCh x (elemsCmds (n + 1) kids true 0 0) := by
-      rcases hcase with ⟨_, _, hk⟩ | ⟨_, _, hk⟩ | ⟨_, _, _, hk⟩
+      rcases hcase with ⟨_, _, hk⟩ | ⟨_, _, hk⟩ | ⟨_, _, _, hk, _⟩
       · exact simpleKids_noCh kids (n + 1) true 0 0 hk
       · exact simpleValues_noCh kids (n + 1) true 0 0 hk
       · exact simpleMembers_noCh kids (n + 1) true 0 0 hk
@@ -253,7 +277,8 @@ theorem simpleItem_noCh : ∀ (e : Item) (n : Nat), SimpleItem e → CmdsNoCh x 
       simp only [String.toList_append]
       exact NoCh.append hx (NoCh.append hx (NoCh.append hx hkw (noCh_lit hx " " (by simp))) (noCh_ident hx hname))
         (noCh_lit hx " {}" (by simp))
-    · apply CmdsNoCh.append (CmdsNoCh.append _ hkids) (cmdsNoCh_endl x _ (noCh_ind hx n "}" (noCh_lit hx "}" (by simp))))
+    · refine CmdsNoCh.append ?_ (CmdsNoCh.append (optCmds_noCh hx n os ho)
+        (CmdsNoCh.append hkids (cmdsNoCh_endl x _ (noCh_ind hx n "}" (noCh_lit hx "}" (by simp))))))
       apply cmdsNoCh_line
       apply noCh_ind hx
       simp only [String.toList_append]
@@ -286,9 +311,11 @@ theorem simpleMembers_noCh : ∀ (es : List Item) (n : Nat) (first : Bool) (le0 
     simp only [SimpleMembers] at h
     rw [elemsCmds_cons_unloc n (.field f) r first le0 lt]
     refine CmdsNoCh.append (CmdsNoCh.append (cmdsNoCh_gapIf x _) ?_) (simpleMembers_noCh r n false _ _ h.2)
-    simp only [itemCmds]
-    rw [fieldCmds_simple n f h.1.1]
-    exact cmdsNoCh_line x _ (noCh_fieldLine hx n f h.1.1)
+    apply simpleItem_noCh (.field f) n
+    simp only [SimpleItem]
+    rcases h.1.1 with h1 | h1
+    · exact Or.inl h1
+    · exact Or.inr (Or.inr h1)
   | .rpc _ _ _ _ _ _ :: _, _, _, _, _, h => by simp [SimpleMembers] at h
   | .block _ _ _ _ _ _ _ :: _, _, _, _, _, h => by simp [SimpleMembers] at h
 end
@@ -425,29 +452,43 @@ theorem topLevel_eof (F : Nat) (l : Nat) (more : List PTok) (a : Acc) :
   simp [topLevel, T]
 
 
-/-- the inside of a message with elements, up to and including its closing brace -/
-theorem inner_message (kids : List Item) (hk : SimpleKids kids) (n s G : Nat) (more : List PTok)
-    (hG : kids.length + 1 + needAll kids ≤ G) :
-    messageBody G (toksOf (elemsCmds (n + 1) kids true 0 0) false (s + 1) ++
-        T (.sym '}') (rdKids kids true 0 0 (s + 1) false).2 :: more) [] [] =
-      some ([], (rdKids kids true 0 0 (s + 1) false).1, (rdKids kids true 0 0 (s + 1) false).2, more) := by
-  obtain ⟨F'', hGe⟩ : ∃ F'', G = (F'' + 1) + kids.length := ⟨G - kids.length - 1, by omega⟩
-  have hkids := mb_kids kids hk (n + 1) true 0 0 (s + 1) false (F'' + 1) [] []
-    (T (.sym '}') (rdKids kids true 0 0 (s + 1) false).2 :: more) rfl (by omega)
-  rw [hGe, hkids, messageBody_close]
-  simp
+/-- the inside of a message (options, elements), up to and including its closing brace -/
+theorem inner_message (opts : List SOpt) (ho : BlockOpts opts) (kids : List Item) (hk : SimpleKids kids) (n s G : Nat)
+    (more : List PTok) (hG : kids.length + 1 + needAll kids + (optChunks opts).length ≤ G) :
+    messageBody G (sh s (optToks0 opts) ++ (toksOf (elemsCmds (n + 1) kids true 0 0) (!opts.isEmpty) (s + 1 + optSpan opts) ++
+        T (.sym '}') (rdKids kids true 0 0 (s + 1 + optSpan opts) (!opts.isEmpty)).2 :: more)) [] [] =
+      some ((optRaws0 opts).map (RawOpt.shift s), (rdKids kids true 0 0 (s + 1 + optSpan opts) (!opts.isEmpty)).1,
+        (rdKids kids true 0 0 (s + 1 + optSpan opts) (!opts.isEmpty)).2, more) := by
+  obtain ⟨F'', hGe⟩ : ∃ F'', G = ((F'' + 1) + kids.length) + (optChunks opts).length :=
+    ⟨G - kids.length - (optChunks opts).length - 1, by omega⟩
+  have hopts := mb_opts s (optChunks opts) ho.chunks ((F'' + 1) + kids.length)
+    (toksOf (elemsCmds (n + 1) kids true 0 0) (!opts.isEmpty) (s + 1 + optSpan opts) ++
+      T (.sym '}') (rdKids kids true 0 0 (s + 1 + optSpan opts) (!opts.isEmpty)).2 :: more) [] []
+  rw [ho.whole] at hopts
+  have hkids := mb_kids kids hk (n + 1) true 0 0 (s + 1 + optSpan opts) (!opts.isEmpty) (F'' + 1)
+    ([] ++ (rawsOf (optChunks opts)).map (RawOpt.shift s)) []
+    (T (.sym '}') (rdKids kids true 0 0 (s + 1 + optSpan opts) (!opts.isEmpty)).2 :: more) rfl (by omega)
+  rw [hGe, hopts, hkids, messageBody_close]
+  simp [optRaws0]
 
-/-- the inside of an enum with values -/
-theorem inner_enum (kids : List Item) (hk : SimpleValues kids) (n s G : Nat) (more : List PTok)
-    (hG : kids.length + 1 ≤ G) :
-    enumBody G (toksOf (elemsCmds (n + 1) kids true 0 0) false (s + 1) ++
-        T (.sym '}') (rdKids kids true 0 0 (s + 1) false).2 :: more) [] [] =
-      some ([], fieldsOf (rdKids kids true 0 0 (s + 1) false).1, (rdKids kids true 0 0 (s + 1) false).2, more) := by
-  obtain ⟨F'', hGe⟩ : ∃ F'', G = (F'' + 1) + kids.length := ⟨G - kids.length - 1, by omega⟩
-  have hvals := enumBody_values kids hk (n + 1) true 0 0 (s + 1) false (F'' + 1) [] []
-    (T (.sym '}') (rdKids kids true 0 0 (s + 1) false).2 :: more) rfl
-  rw [hGe, hvals, enumBody_close]
-  simp
+/-- the inside of an enum (options, values) -/
+theorem inner_enum (opts : List SOpt) (ho : BlockOpts opts) (kids : List Item) (hk : SimpleValues kids) (n s G : Nat)
+    (more : List PTok) (hG : kids.length + 1 + (optChunks opts).length ≤ G) :
+    enumBody G (sh s (optToks0 opts) ++ (toksOf (elemsCmds (n + 1) kids true 0 0) (!opts.isEmpty) (s + 1 + optSpan opts) ++
+        T (.sym '}') (rdKids kids true 0 0 (s + 1 + optSpan opts) (!opts.isEmpty)).2 :: more)) [] [] =
+      some ((optRaws0 opts).map (RawOpt.shift s), fieldsOf (rdKids kids true 0 0 (s + 1 + optSpan opts) (!opts.isEmpty)).1,
+        (rdKids kids true 0 0 (s + 1 + optSpan opts) (!opts.isEmpty)).2, more) := by
+  obtain ⟨F'', hGe⟩ : ∃ F'', G = ((F'' + 1) + kids.length) + (optChunks opts).length :=
+    ⟨G - kids.length - (optChunks opts).length - 1, by omega⟩
+  have hopts := eb_opts s (optChunks opts) ho.chunks ((F'' + 1) + kids.length)
+    (toksOf (elemsCmds (n + 1) kids true 0 0) (!opts.isEmpty) (s + 1 + optSpan opts) ++
+      T (.sym '}') (rdKids kids true 0 0 (s + 1 + optSpan opts) (!opts.isEmpty)).2 :: more) [] []
+  rw [ho.whole] at hopts
+  have hvals := enumBody_values kids hk (n + 1) true 0 0 (s + 1 + optSpan opts) (!opts.isEmpty) (F'' + 1)
+    ([] ++ (rawsOf (optChunks opts)).map (RawOpt.shift s)) []
+    (T (.sym '}') (rdKids kids true 0 0 (s + 1 + optSpan opts) (!opts.isEmpty)).2 :: more) rfl
+  rw [hGe, hopts, hvals, enumBody_close]
+  simp [optRaws0]
 
 /-- a message or an enum, not a field or a oneof -/
 def IsBlock : Item → Prop
@@ -462,51 +503,51 @@ theorem top_item : ∀ (e : Item), SimpleItem e → IsBlock e → ∀ (s G : Nat
   | .block kw t l i name opts kids, h, hb, s, G, a, more, hm, hG => by
     simp only [SimpleItem] at h
     obtain ⟨hl, ho, hname, hcase⟩ := h
-    subst ho
     simp only [need1] at hG
     have hcase : (kw = "message" ∧ t = 1 ∧ SimpleKids kids) ∨ (kw = "enum" ∧ t = 2 ∧ SimpleValues kids) := by
       rcases hcase with h | h | h
       · exact Or.inl h
       · exact Or.inr h
       · exact (hb h.2.1).elim
-    have htr : trailOf (toksOf (elemsCmds (0 + 1) kids true 0 0) false (s + 1) ++
-        T (.sym '}') (rdKids kids true 0 0 (s + 1) false).2 :: more) = "" := trailOf_toksOf _ _ _ _ rfl
+    have htr : trailOf (sh s (optToks0 opts) ++ (toksOf (elemsCmds (0 + 1) kids true 0 0) (!opts.isEmpty) (s + 1 + optSpan opts) ++
+        T (.sym '}') (rdKids kids true 0 0 (s + 1 + optSpan opts) (!opts.isEmpty)).2 :: more)) = "" :=
+      trailOf_opts _ _ _ (trailOf_toksOf _ _ _ _ rfl)
     have htr0 : trailOf (T (.sym '}') s :: more) = "" := rfl
     rcases hcase with ⟨hkw, ht, hk⟩ | ⟨hkw, ht, hk⟩
     · subst hkw ht
-      by_cases hempty : kids.isEmpty = true
-      · have hnil : kids = [] := by simpa using hempty
-        subst hnil
-        simp only [itemToks, rdItem, List.isEmpty_nil, if_true]
+      by_cases hempty : (kids.isEmpty && opts.isEmpty) = true
+      · simp only [Bool.and_eq_true, List.isEmpty_iff] at hempty
+        obtain ⟨rfl, rfl⟩ := hempty
+        simp only [itemToks, rdItem, List.isEmpty_nil, Bool.and_self, if_true]
         rw [lineToks_empty 0 "message" name s isIdent_message hname]
         simp only [List.cons_append, List.nil_append]
         rw [topLevel_msg_step]
         obtain ⟨G', rfl⟩ : ∃ G', G = G' + 1 := ⟨G - 1, by omega⟩
         rw [messageBody_close]
         simp only [mkOpts, groupOpts, unlocateShared, List.map_nil, htr0, mkLoc_plain]
-      · have hne : kids.isEmpty = false := by simpa using hempty
+      · have hne : (kids.isEmpty && opts.isEmpty) = false := by simpa using hempty
         simp only [itemToks, rdItem, hne, Bool.false_eq_true, if_false]
         rw [lineToks_open 0 "message" name s isIdent_message hname, lineToks_close]
         simp only [List.cons_append, List.nil_append, List.append_assoc]
-        rw [topLevel_msg_step, inner_message kids hk 0 s G more (by omega)]
-        simp only [mkOpts, groupOpts, unlocateShared, List.map_nil, htr, mkLoc_plain]
+        rw [topLevel_msg_step, inner_message opts ho kids hk 0 s G more (by omega)]
+        simp only [htr, mkLoc_plain, mkOpts_block]
     · subst hkw ht
-      by_cases hempty : kids.isEmpty = true
-      · have hnil : kids = [] := by simpa using hempty
-        subst hnil
-        simp only [itemToks, rdItem, List.isEmpty_nil, if_true]
+      by_cases hempty : (kids.isEmpty && opts.isEmpty) = true
+      · simp only [Bool.and_eq_true, List.isEmpty_iff] at hempty
+        obtain ⟨rfl, rfl⟩ := hempty
+        simp only [itemToks, rdItem, List.isEmpty_nil, Bool.and_self, if_true]
         rw [lineToks_empty 0 "enum" name s isIdent_enum hname]
         simp only [List.cons_append, List.nil_append]
         rw [topLevel_enum_step]
         obtain ⟨G', rfl⟩ : ∃ G', G = G' + 1 := ⟨G - 1, by omega⟩
         rw [enumBody_close]
         simp only [mkOpts, groupOpts, unlocateShared, List.map_nil, htr0, mkLoc_plain]
-      · have hne : kids.isEmpty = false := by simpa using hempty
+      · have hne : (kids.isEmpty && opts.isEmpty) = false := by simpa using hempty
         simp only [itemToks, rdItem, hne, Bool.false_eq_true, if_false]
         rw [lineToks_open 0 "enum" name s isIdent_enum hname, lineToks_close]
         simp only [List.cons_append, List.nil_append, List.append_assoc]
-        rw [topLevel_enum_step, inner_enum kids hk 0 s G more (by omega)]
-        simp only [mkOpts, groupOpts, unlocateShared, List.map_nil, htr, mkLoc_plain]
+        rw [topLevel_enum_step, inner_enum opts ho kids hk 0 s G more (by omega)]
+        simp only [htr, mkLoc_plain, mkOpts_block]
         rw [← rdKids_values kids hk]
 
 /-- the elements of a file are blocks -/
